@@ -6,6 +6,10 @@ VERIF = os.path.dirname(os.path.dirname(os.path.abspath(__file__)))
 props = [json.loads(l) for l in open(os.path.join(VERIF, "properties.jsonl"))]
 
 CLAIMS = {
+ "C03": dict(
+  text="Crash-isolated differential fuzzing of the embedding API (parser.Parse, error renderers, Program.String, compiler.Compile, risor.Eval with the default globals, host-side Inspect/Interface/Equals/HashKey) on token soup, single-token mutants, truncations and hostile scripts, in child processes under a memory limit and a watchdog: an escaping Go panic, a dead child or a hang is a violation with the input as replay. Proved in Coq: the natively recursive object traversals (Equals, and the item visitors Inspect/Interface/MarshalJSON) terminate on every acyclic heap within a rank-bounded depth, and diverge for every fuel on the cyclic witness (the known finding). The lexer/parser/compiler/VM models of C01/C20 carry the outcome-class correspondence for the same inputs.",
+  note="Trusted: Coq kernel, harness, watchdog limits. Native stack size, memory exhaustion and Go's recover semantics are runtime facts; the traversal model abstracts object/list.go (lists of ints and references). Panic-freedom of the parser/compiler is not a theorem: it is searched for by the fuzz streams (which found and led to the repair of four parser defects). Known finding: cyclic containers.",
+  technique="Rocq termination/divergence theorems on a traversal model + crash-isolated fuzzing oracle", ref="DESIGN.md section 5 C03"),
  "C20": dict(
   text="Proved in Coq for the lexer model and every input text: every position carried by every token (and by the token a lexical error is reported at) is a position of the source - line = number of newlines before the offset, column = distance from the line start, no newline in between, offset within the text - hence the reported line exists and the column lies within it; the repeat counts of the error renderer are never negative; the parser model's precedence table equals the regenerated one. Tied to the code by token-level correspondence including all five position fields on generated programs, their layout variants and single-token mutants; the layout oracle (AST and bytecode of every re-laid-out variant equal the original's) and the diagnostics oracle (line/column exist, quoted line verbatim, rendering succeeds) run on the implementation.",
   note="Trusted: Coq kernel, extraction, harness, variant generator. The layout-invariance theorem for the lexer model is not proved (checked by the variant correspondence on model and implementation). Parser/compiler error positions are token positions of the lexer (by inspection of the models, exercised by the mutant stream). An error at the very end of the input quotes the last line that has text (deliberate).",
